@@ -85,7 +85,7 @@ PROPS["C05"] = {
     "mc_quick": [mc("MCHeadPrefix", "MCHeadPrefix.cfg"), mc("MCHeadPrefix", "MCHeadPrefix_clean.cfg"),
                  mc("MCHeadPrefix", "MCHeadPrefix_kf1.cfg", expect_violation="Refines"),
                  mc("MCHeadPrefix", "MCHeadPrefix_f4.cfg", expect_violation="Refines")],
-    "require_classes": ["offer:3xx-after-location", "offer:shorter-than-version", "offer:h-1", "offer:over-limit", "offer:sequence", "offer:after-split-interim"],
+    "require_classes": ["offer:3xx-after-location", "offer:shorter-than-version", "offer:h-1", "offer:over-limit", "offer:sequence", "offer:after-split-interim", "offer:giant-head"],
     "rule": "one case = one generated well-formed response head (status, version, reason, 0..130 fields with OWS / empty / obs-text values, Location position) "
             "followed by arbitrary bytes, offered at every prefix length 0..|H|+3 to a fresh Flow<RecvResponse> or Call<RecvResponse>; "
             "distinct = distinct (status class, field count, reason class, Location position class)",
@@ -132,7 +132,7 @@ PROPS["C16"] = {
 PROPS["C17"] = {
     "driver": "c17", "trace_spec": "TraceSendHead",
     "mc_quick": [mc("MCSendHead", "MCSendHead.cfg")],
-    "require_classes": ["req:rejected", "req:accepted", "req:on-redirected-flow"],
+    "require_classes": ["req:rejected", "req:accepted", "req:on-redirected-flow", "srw:after-headers-map"],
     "rule": "one case = one cell of versions {0.9,1.0,1.1,2,3} x 9 methods x Host {none, orig, added, orig+added, two, non-text} x Content-Length {none,5,0,two,-1,abc,non-UTF-8,added,orig+added} "
             "x Transfer-Encoding {none, chunked, non-text, added} x despite x {Flow, Call::without_body, Call::with_body}; three writes with buffers {0,16,large} on rejected requests; "
             "quick = a stratified ninth (by seed), thorough = all; distinct = distinct cells",
